@@ -15,3 +15,6 @@ pub assume_specification<T: Clone> [<[T]>::to_vec] (s: &[T]) -> (r: Vec<T>)
 pub assume_specification<T, F: FnOnce() -> Option<T>> [Option::<T>::or_else] (o: Option<T>, f: F) -> (r: Option<T>)
     requires o is None ==> f.requires(()),
     ensures o is Some ==> r == o, o is None ==> f.ensures((), r);
+pub assume_specification<T, E, U, F: FnOnce(T) -> Result<U, E>> [Result::<T, E>::and_then] (o: Result<T, E>, f: F) -> (r: Result<U, E>)
+    requires o is Ok ==> f.requires((o->Ok_0,)),
+    ensures o is Err ==> r is Err && r->Err_0 == o->Err_0, o is Ok ==> f.ensures((o->Ok_0,), r);
